@@ -6,6 +6,8 @@ import (
 	"encoding/base64"
 	"fmt"
 	"net/http"
+	"os"
+	"os/exec"
 	"strings"
 	"sync"
 	"testing"
@@ -419,4 +421,59 @@ func FuzzC07Check(f *testing.F) {
 		}
 		t.Fatalf("VIOLATION C07: accepted %q whose decoded content was never issued (as %q,%v)", s, user, admin)
 	})
+}
+
+// TestC07AcrossRestart: tokens are bound to the running instance — a token issued by one process is refused by the next
+// one, and the two processes never use the same nonce; also with the runtime's automatic seeding of math/rand switched off
+// (GODEBUG=randautoseed=0), which a deterministic key / nonce source would depend on.
+func TestC07AcrossRestart(t *testing.T) {
+	if tokIn := os.Getenv("VERIF_C07_CHILD"); tokIn != "" {
+		f, err := NewWebSessionFactory(time.Hour)
+		if err != nil {
+			t.Fatalf("VERIF-INFRA %v", err)
+		}
+		if tokIn != "-" {
+			st, _, u, a := f.Check(tokIn)
+			fmt.Printf("CHECK %d %s %v\n", st, u, a)
+		}
+		for i := 0; i < 5; i++ {
+			_, _, tok := f.Generate("alice", true)
+			fmt.Printf("TOKEN %s\n", tok)
+		}
+		return
+	}
+	for _, godebug := range []string{"", "randautoseed=0"} {
+		prevTok := "-"
+		nonces := map[string]int{}
+		for gen := 0; gen < 3; gen++ {
+			cmd := exec.Command(os.Args[0], "-test.run", "^TestC07AcrossRestart$", "-test.count=1")
+			cmd.Env = append(os.Environ(), "VERIF_C07_CHILD="+prevTok, "VERIF_STATS=", "GODEBUG="+godebug)
+			out, err := cmd.CombinedOutput()
+			if err != nil {
+				t.Fatalf("VERIF-INFRA child: %v\n%s", err, out)
+			}
+			for _, l := range strings.Split(string(out), "\n") {
+				vlib.Eval()
+				if strings.HasPrefix(l, "CHECK 200") {
+					vlib.Violation("token of a previous process accepted: "+l, "TestC07AcrossRestart", map[string]any{"godebug": godebug})
+					t.Fatalf("VIOLATION C07: a token issued before the restart is accepted by the new instance (%s) [GODEBUG=%q]", l, godebug)
+				}
+				if strings.HasPrefix(l, "TOKEN ") {
+					tok := strings.TrimPrefix(l, "TOKEN ")
+					n, _, ok := decodeTok(tok)
+					if !ok {
+						t.Fatalf("VERIF-INFRA token %q", tok)
+					}
+					if g, dup := nonces[string(n)]; dup {
+						vlib.Violation(fmt.Sprintf("nonce %x used by process generation %d and %d", n, g, gen), "TestC07AcrossRestart", map[string]any{"godebug": godebug})
+						t.Fatalf("VIOLATION C07: nonce %x used by two instances (generation %d and %d) [GODEBUG=%q]", n, g, gen, godebug)
+					}
+					nonces[string(n)] = gen
+					prevTok = tok
+				}
+			}
+		}
+		vlib.NT("c07restart", godebug)
+		vlib.Class("restart:GODEBUG=" + godebug)
+	}
 }
